@@ -91,7 +91,7 @@ fn check(t: &mut Tally, name: &str) {
     let mut tie_in = false;
     if let Some((v0, r)) = tn {
         // embeddable in a pattern: base and version free of pattern metacharacters (always true for this alphabet)
-        if name.contains('-') && !wbase.is_empty() && r < i64::MAX {
+        if name.contains('-') && !wbase.is_empty() && r < i64::MAX && !name.chars().any(|ch| "{}<>*?[]".contains(ch)) && !v0.starts_with('=') {
             tie_in = true;
             let mk = |op: &str, rr: i64| format!("{}{}{}nb{}", wbase, op, v0, rr);
             let probes = [(mk(">=", r), true), (mk("<=", r), true), (mk(">", r), false), (mk("<", r + 1), true), (mk(">=", r + 1), false)];
@@ -183,6 +183,22 @@ fn main() {
             }
         }
         run.bound("scale: names built from 16..70000 repetitions of six units followed by five version tails");
+        run.merge(t);
+    }
+    // character sweep: every ASCII (incl. NUL, LF, CR) and 64 special non-ASCII characters in seven name positions
+    {
+        let mut t = Tally::new();
+        let mut chars = mc_core::chars::all();
+        chars.extend(['\0', '\n', '\r']);
+        run.bound(format!("character sweep: {} characters in seven name positions", chars.len()));
+        for c in chars {
+            for name in [
+                format!("{}", c), format!("{}-1", c), format!("p{}-1", c), format!("p-1{}", c), format!("p-1nb2{}", c), format!("p-{}nb3", c), format!("p{}q-1nb4", c),
+            ] {
+                t.states += 1;
+                check(&mut t, &name);
+            }
+        }
         run.merge(t);
     }
     run.finish();
